@@ -588,6 +588,21 @@ def check_roundtrip(res, c, key, n, m, text):
         else:
             fail(res, "roundtrip-differs", "decrypt(encrypt(text)) != text", case, dict(decrypted=cps_of(back)))
         return None
+    # the message exactly as encrypt() returned it (a bytearray), read by two receivers one after the other: decrypt()
+    # only reads it
+    try:
+        raw = c.encrypt(s)
+        kept = bytes(raw)
+        first = c.decrypt(raw)
+        same = bytes(raw) == kept
+        second = c.decrypt(raw) if same else None
+    except Exception as e:   # noqa
+        fail(res, "decrypt-alters-the-message", "the same encrypted message object decrypted twice: %s: %s" % (type(e).__name__, e), case)
+        return None
+    if not same or first != s or second != s:
+        fail(res, "decrypt-alters-the-message", "decrypt() changed the message it was given (%d bytes before, %d after): a second "
+             "receiver of the same object cannot read it" % (len(kept), len(bytes(raw))), case)
+        return None
     return out
 
 
